@@ -21,6 +21,7 @@ import json, math, os, shutil, struct
 from harness.gen import c08_inst as G
 
 REL = 1e-9
+EXACT_REL = 1e-12      # implementation floats vs the exact rational posterior (c08.fbrat): relative, + 1e-300 absolute
 RULE = ("well-formed instances (sorted reads with >= 2 variants each, 0/1 alleles, positive priors) over single individuals, "
         "trios (both individual orders), quartets, unrelated pairs and a three-generation pedigree; non-trivial = at least "
         "one column with >= 2 active reads and a posterior that is not the uniform triple; distinct = distinct instance. "
@@ -401,6 +402,105 @@ def one_case(ctx, batch, case, oracle_budget=1e5, brute_budget=3e4, corpus=False
     batch.add(case, impl, bc <= brute_budget or big_ok, scal)
 
 
+
+# ------------------------------------------------------------------------------------------------
+# exact rational cross-check
+# ------------------------------------------------------------------------------------------------
+
+EXACT_QUALS = [0, 10, 20, 30, 40, 60]
+EXACT_RECOMB = [0, 10, 20, 30, 40, 80]
+
+
+def exactify(case):
+    """qualities and recombination costs to multiples of 10: then 10^(-q/10) is a rational number and every parameter
+    of the HMM (priors are doubles = dyadic rationals) has an exact value the Lean model can compute with"""
+    case = json.loads(json.dumps(case))
+    for r in case["reads"]:
+        for e in r["entries"]:
+            e[2] = min(EXACT_QUALS, key=lambda v: abs(v - e[2]))
+    case["recomb"] = [min(EXACT_RECOMB, key=lambda v: abs(v - x)) for x in case["recomb"]]
+    return case
+
+
+def frac_str(x):
+    from fractions import Fraction
+    f = Fraction(float(x))
+    return f"{f.numerator}/{f.denominator}"
+
+
+def parse_frac(sx):
+    from fractions import Fraction
+    a, b = sx.split("/")
+    return Fraction(int(a), int(b))
+
+
+class ExactBatch:
+    """implementation floats against the posterior evaluated over exact rationals by the Lean model (K = Rat)"""
+
+    def __init__(self, ctx):
+        self.ctx, self.items = ctx, []
+
+    def add(self, case, impl, brute):
+        self.items.append((case, impl, brute))
+        if len(self.items) >= 40:
+            self.flush()
+
+    def flush(self):
+        from fractions import Fraction
+        ctx = self.ctx
+        reqs = []
+        for case, impl, brute in self.items:
+            req = {"op": "c08.fbrat", "n_cols": case["n_cols"], "n_ind": case["n_ind"], "triples": case["triples"], "reads": case["reads"],
+                   "recomb": case["recomb"], "priors": [[[frac_str(x) for x in p] for p in ind] for ind in case["priors"]], "brute": bool(brute),
+                   "em0": frac_str(0.9999)}     # genotypecolumncostcomputer.cpp: `result[0] = 0.9999;` (a double literal)
+            reqs.append(req)
+        answers = ctx.model.ask_many(reqs) if reqs else []
+        for (case, impl, brute), ans in zip(self.items, answers):
+            if not isinstance(ans, dict) or "lik" not in ans:
+                ctx.disagree("c08.fbrat", case, "likelihoods", ans); continue
+            if ans.get("zero_total"):
+                ctx.observe("exact cross-check: an instance whose exact normalisation is 0 was generated (skipped)"); continue
+            if brute:
+                ctx.extra["exact_brute_checked"] = ctx.extra.get("exact_brute_checked", 0) + 1
+                if ans.get("post") != ans["lik"]:
+                    ctx.disagree("c08.fbrat/forward-backward-vs-enumeration", case, "identical rationals", "different")
+            worst, where = 0.0, None
+            for i, ind in enumerate(ans["lik"]):
+                for c, col in enumerate(ind):
+                    for g, sx in enumerate(col):
+                        ex = parse_frac(sx)
+                        x = impl[i][c][g]
+                        if x != x:
+                            worst, where = float("inf"), (i, c, g, x, float(ex)); continue
+                        d = abs(Fraction(x) - ex)
+                        if d <= Fraction(1, 10 ** 300):
+                            continue
+                        rel = float(d / max(abs(ex), abs(Fraction(x))))
+                        if rel > worst:
+                            worst, where = rel, (i, c, g, x, float(ex))
+            ctx.extra["exact_checked"] = ctx.extra.get("exact_checked", 0) + 1
+            ctx.extra["max_rel_dev_exact"] = max(ctx.extra.get("max_rel_dev_exact", 0.0), worst)
+            if worst > EXACT_REL:
+                i, c, g, x, ex = where
+                ctx.fail(f"likelihood of individual {i}, column {c}, genotype {g} is {x!r}; the exact posterior (rational arithmetic) is "
+                         f"{ex!r}: relative deviation {worst:.3g} > {EXACT_REL}", dict(case, exact=True, impl=impl), key="posterior-exact")
+        self.items = []
+
+
+def exact_case(ctx, ebatch, case, brute_budget=1500):
+    ctx.evaluated()
+    impl = run_impl(case)
+    cov = G.coverage(case)
+    if max(cov) >= 2:
+        ctx.nontrivial("exact:" + json.dumps(case, sort_keys=True))
+    ctx.dist("exact n_cols", case["n_cols"]); ctx.dist("exact pedigree", case.get("ped", "?"))
+    n_brute = ctx.extra.get("exact_brute_requested", 0)
+    brute = G.brute_cost(case) <= brute_budget and n_brute < (30 if ctx.quick else 400) * ctx.scale
+    if brute:
+        ctx.extra["exact_brute_requested"] = n_brute + 1
+    ebatch.add(case, impl, brute)
+
+
 def gt_edge_cases(ctx):
     """ties and thresholds on exact floats: real determine_genotype vs the rule vs the Lean model"""
     vals = [0.0, 0.1, 0.25, 1 / 3, 0.5, 0.9, 1.0]
@@ -434,8 +534,13 @@ def replay_case(ctx, batch, case):
     elif case.get("kind") == "cli":
         ctx.observe("cli replay cases are regenerated from the seed, not replayed")
     else:
-        case = {k: v for k, v in case.items() if k not in ("impl", "oracle", "spec", "scal")}
+        exact = case.get("exact")
+        case = {k: v for k, v in case.items() if k not in ("impl", "oracle", "spec", "scal", "exact")}
         one_case(ctx, batch, case, corpus=True)
+        if exact:
+            eb = ExactBatch(ctx)
+            exact_case(ctx, eb, case)
+            eb.flush()
 
 
 def run(ctx):
@@ -468,6 +573,25 @@ def run(ctx):
         case = G.gen_instance(rng, ped=ped, n_cols=n_cols, max_cov=cov, n_reads=nr, uncovered_ok=(k % 4 == 0))
         one_case(ctx, batch, case)
     batch.flush()
+
+    # exact rational cross-check: implementation floats against the posterior computed WITHOUT floating point
+    import time as _time
+    _t_exact = _time.time()
+    ebatch = ExactBatch(ctx)
+    n_exact = (120 if ctx.quick else 1500) * ctx.scale
+    for k in range(n_exact):
+        if k % 4 == 3:
+            ped = rng.choice(["single"] * 4 + ["two_unrelated", "trio"])
+            S = G.n_local_states({"triples": G.PEDIGREES[ped][1], "n_ind": G.PEDIGREES[ped][0]})
+            case = G.gen_instance(rng, ped=ped, n_cols=rng.randrange(4, 10 if S <= 16 else 6), max_cov=rng.choice([2, 3, 4]),
+                                  n_reads=rng.randrange(4, 14 if S <= 16 else 7), uncovered_ok=(k % 8 == 3))
+        else:
+            case = G.gen_instance(rng, max_cov=rng.choice([2, 3, 4]), uncovered_ok=(k % 3 != 0))
+            if G.n_local_states(case) >= 256:
+                case = G.gen_instance(rng, ped=case["ped"], n_cols=rng.choice([2, 3]), n_reads=rng.randrange(1, 5), max_cov=3)
+        exact_case(ctx, ebatch, exactify(case))
+    ebatch.flush()
+    ctx.extra["exact_part_s"] = round(_time.time() - _t_exact, 1)
 
     if not ctx.quick:
         # exhaustive: single individual, <= 3 reads over <= 3 columns, every read shape/allele pattern, two quality levels
